@@ -10,7 +10,7 @@ use rink_core::output::QueryReply;
 use rink_core::Context;
 use serde_derive::{Deserialize, Serialize};
 use serde_json::{json, Value as J};
-use std::collections::BTreeSet;
+use std::collections::{BTreeMap, BTreeSet};
 use std::sync::Arc;
 
 pub const RULE: &str = "case = expression tree whose leaves are `coef unit` (unit: any usable database name, prefix+name, \
@@ -703,6 +703,116 @@ pub fn mk_env(known: BTreeSet<String>) -> Env {
     }
 }
 
+/// products and quotients of power towers whose exponents run up to and past the ends of the
+/// i64 range, optionally applied to a substance: the dimensionality is either exactly the one
+/// exact integer arithmetic gives, or the expression is refused - never a saturated or wrapped one
+#[derive(Clone, Debug, Serialize, Deserialize)]
+pub struct Huge {
+    /// (divide?, unit index, exponents of the tower, innermost first)
+    pub factors: Vec<(bool, u8, Vec<i64>)>,
+    pub substance: Option<u8>,
+}
+
+const HUGE_UNITS: [&str; 3] = ["m", "s", "kg"];
+const HUGE_SUBSTANCES: [&str; 3] = ["water", "hydrogen", "egg"];
+const HUGE_EXPONENTS: [i64; 14] = [2147483647, -2147483647, 1073741824, 65536, 3, 2, -1, 49, 73, 127, 337, 92737, 649657, -2];
+
+impl Huge {
+    pub fn text(&self) -> String {
+        let mut s = String::new();
+        for (i, (div, u, tower)) in self.factors.iter().enumerate() {
+            let mut f = HUGE_UNITS[*u as usize % 3].to_string();
+            for e in tower {
+                f = format!("({}^{})", f, e);
+            }
+            if i == 0 {
+                s = if *div { format!("1 / {}", f) } else { f };
+            } else {
+                s = format!("{} {} {}", s, if *div { "/" } else { "*" }, f);
+            }
+        }
+        match self.substance {
+            Some(k) => format!("{} * {}", HUGE_SUBSTANCES[k as usize % 3], s),
+            None => s,
+        }
+    }
+}
+
+fn huge_strategy() -> impl Strategy<Value = Huge> {
+    let e = proptest::sample::select(HUGE_EXPONENTS.to_vec());
+    let factor = (any::<bool>(), 0u8..3, proptest::collection::vec(e, 1..=6));
+    (proptest::collection::vec(factor, 1..=6), proptest::option::weighted(0.35, 0u8..3)).prop_map(|(factors, substance)| Huge { factors, substance })
+}
+
+pub fn check_huge(env: &Env, c: &Huge, st: &mut Stats) -> CaseResult {
+    use rink_core::runtime::Value;
+    let text = c.text();
+    // exact arithmetic on the exponents, with the running results rink has to go through
+    const LIM: i128 = i64::MAX as i128;
+    let mut total: BTreeMap<&str, i128> = BTreeMap::new();
+    let mut must_fit = true; // every power and every running sum stays strictly inside the i64 range
+    for (div, u, tower) in &c.factors {
+        let mut e: i128 = 1;
+        for k in tower {
+            e = e.saturating_mul(*k as i128).clamp(-(1i128 << 100), 1i128 << 100);
+            if e.abs() > LIM {
+                must_fit = false;
+            }
+        }
+        let unit = HUGE_UNITS[*u as usize % 3];
+        let t = total.entry(unit).or_insert(0);
+        *t = t.saturating_add(if *div { -e } else { e }).clamp(-(1i128 << 110), 1i128 << 110);
+        if t.abs() > LIM {
+            must_fit = false;
+        }
+    }
+    total.retain(|_, v| *v != 0);
+    st.eval();
+    st.class(if c.substance.is_some() { "huge_exponents_on_a_substance" } else { "huge_exponents" });
+    st.class(if must_fit { "huge_must_be_exact" } else { "huge_out_of_range_somewhere" });
+    let parsed = catch(|| {
+        let mut it = rink_core::parsing::text_query::TokenIterator::new(&text).peekable();
+        rink_core::parsing::text_query::parse_expr(&mut it)
+    });
+    let expr = match parsed {
+        Ok(e) => e,
+        Err(p) => return fail(env, st, &panic_signature(&p), &text, format!("parsing panicked: {}", p)),
+    };
+    // evaluated without rendering (showing meter^9223372036854775807 is slow, which C04 tolerates)
+    let got = match catch(|| env.ctx.eval(&expr)) {
+        Ok(r) => r,
+        Err(p) => return fail(env, st, &panic_signature(&p), &text, format!("panicked: {}", p)),
+    };
+    let dims: Dims = match got {
+        Err(_) => {
+            st.class("huge_refused");
+            if must_fit && c.substance.is_none() {
+                // (a substance's own amount is dimensionless here, so the same holds with one; but its
+                // error path differs, so only plain numbers are required to be accepted)
+                return fail(env, st, "in-range-exponents-refused", &text, "every power and running sum fits in i64, yet the expression was refused".into());
+            }
+            return Ok(());
+        }
+        Ok(Value::Number(n)) => rinkx::dims_of(&n),
+        Ok(Value::Substance(sub)) => rinkx::dims_of(&sub.amount),
+        Ok(_) => return Ok(()),
+    };
+    st.nontrivial(&text);
+    st.nt_sample(|| json!(text));
+    let want: Dims = total.iter().map(|(k, v)| (k.to_string(), (*v).clamp(i64::MIN as i128, i64::MAX as i128) as i64)).collect();
+    let exact_fits = total.values().all(|v| v.abs() <= LIM);
+    if !exact_fits || dims != want {
+        return fail(
+            env,
+            st,
+            "huge-exponent-wrong-dimensionality",
+            &text,
+            format!("accepted with dimensionality {}, exact arithmetic gives {:?}", dims_show(&dims), total),
+        );
+    }
+    Ok(())
+}
+
 pub fn run(cx: &Cx) -> Report {
     let mut rep = Report::new(RULE);
     rep.assumptions = vec![
@@ -731,6 +841,17 @@ pub fn run(cx: &Cx) -> Report {
         |c| json!({"case": c, "text": c.tree.render()}),
     ));
     rep.mark(cx, "random");
+    let k = known.clone();
+    rep.absorb(par_proptest(
+        cx,
+        "huge-exponents",
+        cx.tier.pick(30_000, 600_000),
+        huge_strategy,
+        move || mk_env(k.clone()),
+        |env, c, st| check_huge(env, c, st),
+        |c| json!({"huge": c, "text": c.text()}),
+    ));
+    rep.mark(cx, "huge-exponents");
     let s = &rep.stats.classes;
     let accept = s.get("gate_must_accept").cloned().unwrap_or(0);
     let refuse = s.get("gate_must_refuse").cloned().unwrap_or(0);
@@ -743,6 +864,10 @@ pub fn run(cx: &Cx) -> Report {
 
 pub fn replay(cx: &Cx, _phase: &str, case: &J, st: &mut Stats) -> CaseResult {
     let env = mk_env(cx.known.clone());
+    if case.get("huge").is_some() {
+        let c: Huge = serde_json::from_value(case["huge"].clone()).map_err(|e| format!("bad case: {}", e))?;
+        return check_huge(&env, &c, st);
+    }
     let c: Case = serde_json::from_value(case["case"].clone()).map_err(|e| format!("bad case: {}", e))?;
     check(&env, &c, st)
 }
